@@ -91,6 +91,38 @@ pub fn mpq_path_to_system(path: &str) -> String {
     }
 }
 
+/// The plain file name of an MPQ path: the part after the last path separator
+///
+/// The MPQ format derives the encryption key of a file from its plain name, not
+/// from the full path stored in the hash table, so `dir\\file.txt` and `file.txt`
+/// share the same base key.
+///
+/// # Examples
+///
+/// ```
+/// use wow_mpq::path::plain_file_name;
+///
+/// assert_eq!(plain_file_name("staredit\\scenario.chk"), "scenario.chk");
+/// assert_eq!(plain_file_name("a/b\\c.txt"), "c.txt");
+/// assert_eq!(plain_file_name("file.txt"), "file.txt");
+/// ```
+pub fn plain_file_name(path: &str) -> &str {
+    // Separators are ASCII, so the cut is always on a character boundary
+    &path[plain_name_start(path.as_bytes())..]
+}
+
+fn plain_name_start(bytes: &[u8]) -> usize {
+    let mut start = 0;
+    let mut pos = 0;
+    while pos < bytes.len() {
+        if is_path_separator(bytes[pos]) {
+            start = pos + 1;
+        }
+        pos += 1;
+    }
+    start
+}
+
 /// Convert an MPQ entry name into a relative system path that is safe to create
 /// beneath an extraction directory
 ///
